@@ -11,6 +11,7 @@
      GV  <src>                              -> true|false                  utf8.Validate
      AQ  <buf> <src>                        -> <out>                       ast.quoteString
      JS  <unicode_errors> <body>            -> ok <out> | err              jitdec `,string` string field (body between the outer quotes)
+     VA  <src>                              -> true|false <ret>            AVX2 build: lookup pre-check verdict, validate_utf8_fast result
      RW  <src>                              -> true|false <first bad | ->  reference well-formedness (spec)
      RR  <repl> <src>                       -> <out>                       reference replacement (spec)
    <ws>: a = AVX2 block widths [32;16], s = SSE [16], 0 = scalar []                                  *)
@@ -75,6 +76,9 @@ let () =
       (match JitString.jit_unquote_twice (ue = "1") (bx body) with
        | Some o -> pr "ok\t%s\n" (hx o)
        | None -> pr "err\n")
+    | ["VA"; src] ->
+      let s = bx src in
+      pr "%b\t%d\n" (match s with [] -> true | _ -> Utf8Simd.validate_utf8_avx2 s) (int_of_z (match s with [] -> Z0 | _ -> Utf8Simd.validate_utf8_fast_avx2 s))
     | ["RW"; src] ->
       let s = bx src in
       pr "%b\t%s\n" (RefUtf8.wf s)
